@@ -37,6 +37,12 @@ Fixpoint find_pos (j : Z) (l : list Z) (n : Z) : option Z :=
 Definition swizzle_write_spec (k : kind) (L : Z) (name : string) : option (list expr) :=
   option_map (fun ls => map (fun j => match find_pos j ls 0 with Some n => V k 1 n | None => V k 0 j end) (zseq L)) (letters name).
 
+(* v.NAME = s (scalar): the named components all become s;  v.NAME op= r: named component j (the n-th letter) becomes v_j op r_n *)
+Definition swizzle_scalar_spec (k : kind) (L : Z) (name : string) : option (list expr) :=
+  option_map (fun ls => map (fun j => match find_pos j ls 0 with Some _ => V k 1 0 | None => V k 0 j end) (zseq L)) (letters name).
+Definition swizzle_compound_spec (o : binop) (k : kind) (L : Z) (name : string) : option (list expr) :=
+  option_map (fun ls => map (fun j => match find_pos j ls 0 with Some n => B o k (V k 0 j) (V k 1 n) | None => V k 0 j end) (zseq L)) (letters name).
+
 (* all words of length n over the first L letters of an alphabet *)
 Fixpoint words (alpha : list ascii) (n : nat) : list string :=
   match n with O => [EmptyString] | S m => flat_map (fun a => map (fun w => String a w) (words alpha m)) alpha end.
